@@ -193,7 +193,8 @@ def prepare(base, case):
             raise HarnessError(f"could not prepare tree: {err}")
     if case["tree"] == "partial":
         od = pkgcheck.pkg_dir(root, out_pkg)
-        os.unlink(os.path.join(od, "models", "pet.py"))
+        victims = sorted(n for n in os.listdir(os.path.join(od, "models")) if n.endswith(".py") and n != "__init__.py")
+        os.unlink(os.path.join(od, "models", "pet.py" if "pet.py" in victims else victims[0]))
         shutil.rmtree(os.path.join(od, "mocks"))
         cd = pkgcheck.pkg_dir(root, core_pkg or out_pkg + ".core")
         os.unlink(os.path.join(cd, "utils.py"))
